@@ -48,7 +48,60 @@ def r_format(P, R):
     pickle_keys(P, R)
     optionality(P, R)
     json_fields(P, R)
+    whole_dump(P, R)
 r_format.NAME = 'R-FORMAT'
+
+
+def whole_dump(P, R):
+    """A pickle dump without named roots stores every node of the
+    manager: on the `roots is None` arm the dumped collection is the
+    successor table itself."""
+    f = P.func('dd.bdd.BDD._dump_bdd')
+    roots = [p for p in f.params if p != 'self'][0]
+    arm = None
+    for s in f.node.body:
+        if isinstance(s, ast.If) and isinstance(
+                s.test, ast.Compare) and au.is_name(
+                    s.test.left, roots) and isinstance(
+                        s.test.ops[0], (ast.Is, ast.IsNot)):
+            arm = s.body if isinstance(s.test.ops[0], ast.Is) else s.orelse
+    if not arm:
+        R.undecided('R-FORMAT', f.qualname, 'dump without roots',
+                    'no `roots is None` arm')
+        return
+    vals = [s.value for s in arm if isinstance(s, ast.Assign)]
+    if len(vals) != 1:
+        R.undecided('R-FORMAT', f.qualname, 'dump without roots',
+                    'arm not a single assignment')
+        return
+    v = vals[0]
+    inner = v
+    while isinstance(inner, ast.Call) and au.call_name(inner) in (
+            'list', 'set', 'dict', 'tuple', 'keys', 'sorted', 'iter'):
+        if inner.args:
+            inner = inner.args[0]
+        elif isinstance(inner.func, ast.Attribute):
+            inner = inner.func.value
+        else:
+            break
+    ch = au.chain(inner)
+    if ch and ch[0] == 'self' and ch[-1] in ('_succ', '_ref'):
+        R.holds('R-FORMAT', f.qualname,
+                f'without roots the dump stores all of `{".".join(ch)}`')
+    elif isinstance(inner, (ast.ListComp, ast.SetComp, ast.DictComp,
+                            ast.GeneratorExp)) and any(
+                                g.ifs for g in inner.generators):
+        R.violation(
+            'R-FORMAT', 'whole-dump-filtered', f.qualname, 'nodes',
+            f'without roots `{au.short(v, 60)}` leaves nodes out of the '
+            'dump: the file no longer holds every node of the manager '
+            '(a node that is in the table but has no reference at the '
+            'moment is lost, although it may be the only copy of a '
+            'result the user still names by number)', unit=f.unit.rel,
+            line=v.lineno)
+    else:
+        R.undecided('R-FORMAT', f.qualname, 'dump without roots',
+                    f'`{au.short(v, 40)}` not recognised')
 
 
 def pickle_keys(P, R):
